@@ -40,10 +40,11 @@ def run(ck):
     layouts = [L for L in syn.load_layouts() if "\n" in L["sep"]]
     jobs, meta = [], []
     for v in vecs:
-        if not v["v"]:
-            continue
+        # "valid program" = the whole program parses in that variant (the engine checks this itself), so variants
+        # the spec leaves unspecified are cut too; variants where the spec says it must be rejected are skipped
+        langs = [ln for ln in syn.LANGS if ln not in v["x"]]
         for L in layouts:
-            jobs.append({"src": syn.render(v["r"], L), "langs": v["v"], "valid": True})
+            jobs.append({"src": syn.render(v["r"], L), "langs": langs, "valid": True})
             meta.append((v, L, "cut"))
     nmut = 2 if ck.tier == "quick" else 6
     one = syn.load_layouts()[0]
@@ -68,7 +69,7 @@ def run(ck):
         if r["incomplete"] or r["errors"]:
             nt.add(j["src"])
         for f in (r["fails"] or []):
-            key = "%s|%s" % (f["kind"], f["detail"] if f["kind"] == "cut-not-incomplete" else f["detail"].split(":")[0])
+            key = "%s|%s" % (f["kind"], f["detail"] if f["kind"] == "cut-not-incomplete" else f["detail"].split(": ")[0])
             rec = {"vector": dict(j, cut=f["cut"], lang=f["lang"]), "impl": f}
             if key not in seen or len(j["src"]) < len(seen[key]["vector"]["src"]):
                 seen[key] = rec
